@@ -188,24 +188,26 @@ class Inquiry(SCSICommand):
 
     _ata_information_bits = {
         "sat_vendor_identification": ("b", 8, 8),
-        "sat_product_identification": ("b", 16, 20),
+        "sat_product_identification": ("b", 16, 16),
         "sat_product_rev_lvl": ("b", 32, 4),
     }
 
+    # the device signature is a device to host register FIS
     _ata_signature_bits = {
-        "sector_count": [0xFF, 0],
-        "lba_low": [0xFF, 1],
-        "lba_mid": [0xFF, 2],
-        "lba_high": [0xFF, 3],
-        "device": [0xFF, 4],
+        "sector_count": [0xFF, 12],
+        "lba_low": [0xFF, 4],
+        "lba_mid": [0xFF, 5],
+        "lba_high": [0xFF, 6],
+        "device": [0xFF, 7],
     }
 
     _ata_identify_bits = {
         "general_config": [0xFFFFFFFF, 0],
         "specific_config": [0xFFFFFFFF, 4],
-        "serial_number": ("w", 10, 10),
-        "firmware_rev": ("w", 23, 4),
-        "model_number": ("w", 27, 20),
+        # words 10-19, 23-26 and 27-46 of the IDENTIFY data
+        "serial_number": ("w", 20, 10),
+        "firmware_rev": ("w", 46, 4),
+        "model_number": ("w", 54, 20),
     }
 
     _ata_identify_gen_conf_bits = {
@@ -387,8 +389,8 @@ class Inquiry(SCSICommand):
     @classmethod
     def unmarshall_ata_information(cls, data):
         result = {}
-        _sig = data[36:41]
-        _identify = data[44:]
+        _sig = data[36:56]
+        _identify = data[60:]
         convert.decode_bits(data, cls._ata_information_bits, result)
         _r = {}
         convert.decode_bits(_sig, cls._ata_signature_bits, _r)
